@@ -1009,6 +1009,10 @@ func vFmtDay(day int, layout string) string {
 		return fmt.Sprintf("%s %d %s %04d", [7]string{"Fri", "Sat", "Sun", "Mon", "Tue", "Wed", "Thu"}[((day%7)+7)%7], d, vMonthAbbr[m-1], y)
 	case "2006-01-02 15:04 -0700": // midnight UTC; records with a time of day and an offset are rendered by their generator
 		return fmt.Sprintf("%04d-%02d-%02d 00:00 +0000", y, m, d)
+	case "2006-01-02 15:04:05.000000000": // midnight, nanoseconds
+		return fmt.Sprintf("%04d-%02d-%02d 00:00:00.000000000", y, m, d)
+	case "01/02": // no year at all: every date lies in the year the parser gives such values (all days of a case share a year)
+		return fmt.Sprintf("%02d/%02d", m, d)
 	case "2006-01-02 15:04:05.000000": // midnight, microseconds
 		return fmt.Sprintf("%04d-%02d-%02d 00:00:00.000000", y, m, d)
 	case "2006-01-02 15:04:05.000": // midnight
